@@ -103,6 +103,37 @@ def run(tier):
                         checks.append(("absent", i, len(ops) - 4))
                 scripts.append("Q " + " ".join(ops))
                 meta.append((checks, mtxt))
+        # strings whose escapes cannot be decoded in this configuration are compared by their raw text: different texts stay different
+        raws = [b"\"C:\\work\"", b"\"D:\\data\"", b"\"D:\\data\\x\"", b"\"\\q\"", b"\"\\q1\"", b"\"a\\zb\"", b"\"\\\"", b"\"ok\""]
+        raws = [r_ for r_ in raws if r_ != b"\"\\\""]
+        for i, kx in enumerate(raws):
+            others = [r_ for r_ in raws if r_ != kx][:3]
+            mdoc = b"{" + kx + b" 1 " + others[0] + b" 2 :other 3}"
+            sdoc = b"#{" + kx + b" " + others[0] + b" :k}"
+            ops = ["r0=%s" % C.hexs(mdoc), "r2=%s" % C.hexs(sdoc), "r1=%s" % C.hexs(kx), "lk:0:1", "ck:0:1", "t:0.1", "sc:2:1"]
+            chk = [("present", 0, 2)]
+            for ab in others[1:]:
+                ops += ["r1=%s" % C.hexs(ab), "lk:0:1", "ck:0:1", "sc:2:1"]
+                chk.append(("absent", 0, len(ops) - 4))
+            scripts.append("Q " + " ".join(ops))
+            meta.append((chk, mdoc))
+        # Clojure flag: lookups in a metadata map merged from several annotations (its keys never went through the
+        # duplicate check, so none of them carries a cached hash) agree with iteration, below and above 16 entries
+        if cfg in ("clj", "both"):
+            for na, nb in ((3, 3), (8, 8), (9, 9), (12, 7)):
+                a1 = b"{" + b" ".join(b":a%d %d" % (i, i) for i in range(na)) + b"}"
+                b1 = b"{" + b" ".join(b":b%d %d" % (i, 100 + i) for i in range(nb)) + b"}"
+                doc = b"^" + a1 + b" ^" + b1 + b" [1 2 3]"
+                ops = ["r0=%s" % C.hexs(doc)]
+                chk = []
+                for j in range(na + nb):
+                    key = (b":a%d" % j) if j < na else (b":b%d" % (j - na))
+                    ops += ["r1=%s" % C.hexs(key), "lk:0.m:1", "ck:0.m:1", "t:0.m.%d" % (2 * j + 1), "ck:0.m:1"]
+                    chk.append(("present-meta", j, len(ops) - 5))
+                    ops += ["gk:0.m:%s" % C.hexs(key[1:])]
+                    chk.append(("helper-meta", j, len(ops) - 1))
+                scripts.append("Q " + " ".join(ops))
+                meta.append((chk, doc))
         impl, model, diffs, crashes, mcr = K.correspond(cfg, scripts)
         rep.count("scripts/" + cfg, len(scripts))
         for idx, rc, err in crashes:
@@ -115,10 +146,29 @@ def run(tier):
             if out is None:
                 continue
             toks = out.split("\t")
-            if toks[0] != "ok" or toks[1] != "ok":
+            if toks[0] != "ok" or (len(toks) > 1 and toks[1].startswith("err")):
                 continue
             for kind, ki, pos in meta[i][0]:
                 nq += 1
+                if kind == "present-meta":
+                    rd, lk, ck, tv, ck2 = toks[pos:pos + 5]
+                    if rd != "ok" or lk != tv or ck != "1" or ck2 != "1":
+                        found = True
+                        rep.finding("present-key", "lookup of key %d in merged metadata gave %s (contains %s/%s), the value at that index is %s" % (ki, lk[:60], ck, ck2, tv[:60]),
+                                    {"kind": "script", "config": cfg, "line": scripts[i][:20000], "index": ki})
+                        break
+                    continue
+                if kind == "helper-meta":
+                    tv = None
+                    for k2, ki2, pos2 in meta[i][0]:
+                        if k2 == "present-meta" and ki2 == ki:
+                            tv = toks[pos2 + 3]
+                    if toks[pos] != tv:
+                        found = True
+                        rep.finding("helper", "keyword helper on merged metadata for key %d gave %s, iteration gives %s" % (ki, toks[pos][:60], (tv or "")[:60]),
+                                    {"kind": "script", "config": cfg, "line": scripts[i][:20000], "index": ki})
+                        break
+                    continue
                 if kind == "present":
                     rd, lk, ck, tv, sc = toks[pos:pos + 5]
                     if rd != "ok" or lk != tv or ck != "1" or sc != "1":
